@@ -18,6 +18,7 @@ EXPLANATION = (
     "what is stored is the URI text printed verbatim from its fields (shared with C19)."
     'Also decided: SqlStorage.__setitem__ writes the given uri on every path; the nsc tool asks yplookup the question its command names. '
     'Also decided (round 7): SqlStorage.__setitem__ removes the old tags whatever the new tags are. '
+    'Also decided (round 8): NameServer changes the storage only through operations the in-memory back-end implements itself (no dict-inherited mutator that bypasses its normalising __setitem__). '
     "Not decided: sqlite's own semantics, reopen equality, histories, injected "
     "statement failures."
 )
@@ -226,6 +227,14 @@ def run(ctx, R, tier):
     missing = sorted(u for u in used if u not in sq_has or u not in mem_has)
     R.check(not missing, "C14-R3", "NameServer|uses-common-methods", "NameServer calls only storage methods that both back-ends provide (%d used)" % len(used),
             ns.module.relpath, "not available on both back-ends: %s" % missing)
+    # MemoryStorage IS a dict and normalises what it stores in its own __setitem__ (no tags -> frozenset()); a mutator it merely inherits from dict (setdefault, update,
+    # pop, popitem, |=) writes straight into the dict and bypasses that, while the sqlite back-end routes the same MutableMapping mix-in through its __setitem__:
+    # NameServer may change the storage only through operations MemoryStorage defines itself
+    DICT_MUTATORS = {"setdefault", "update", "pop", "popitem", "clear", "__ior__"}
+    inherited = sorted(u for u in used if u in DICT_MUTATORS and u not in mem.methods)
+    R.check(not inherited, "C14-R3", "NameServer|stores-through-the-storage's-own-operations", "NameServer changes the storage only through operations the in-memory back-end implements itself",
+            ns.module.relpath, "NameServer calls self.storage.%s(), which MemoryStorage inherits from dict: the entry is written without passing MemoryStorage.__setitem__, so it is stored "
+            "un-normalised (tags None instead of frozenset()) and the two back-ends answer listings and yplookup differently" % (inherited[0] if inherited else ""))
     for dunder in ("__getitem__", "__setitem__", "__delitem__", "__contains__", "__len__", "__iter__"):
         R.check(dunder in sq.methods, "C14-R3", "SqlStorage|%s" % dunder, "mapping operation implemented by the sqlite back-end", sq.module.relpath,
                 "%s missing" % dunder)
